@@ -18,10 +18,10 @@ CLAIMED = {
     text='Theorems over the control skeleton of the rule loop of Pass::runGraphite and the insert budget of Silf::runGraphite: (1) every run of the loop in which the measure '
          '"slots from the high-water mark to the end + remaining insert budget" never increases and decreases at each reset makes at most maxloop*(mu0+1) iterations (potential '
          'maxloop*mu+lc, induction over the observation sequence); (2) whatever is inserted and deleted, the stream never exceeds 65 slots per initial slot and a run whose end-of-pass '
-         'test succeeds leaves at most 64 (invariant n + budget <= 65*n0); (3) inserts + remaining budget = initial budget.  Tie A: MAX_SEG_GROWTH_FACTOR, maxSize initialisation, '
+         'test succeeds leaves at most 64 (invariant n + budget <= 65*n0); (3) inserts + remaining budget = initial budget; (4) graphite2::sparse (the glyph-attribute store): whatever pairs it was built from, operator[] reads inside its array for every 16-bit key.  Tie A: sparse SIZEOF_CHUNK, MAX_SEG_GROWTH_FACTOR, maxSize initialisation, '
          'end-of-pass test, INSERT budget test, decMax, maxRuleLoop clamp, reset condition, depth cut-offs regenerated from the source.  Tie B: hooks report every loop iteration '
          '(measure, counter, reset, cursor) and every insert/delete/pass-end; the extracted acceptors must admit each trace (this monitors the hypothesis of (1) on the real engine) and the '
-         'iteration count must respect the bound.  Oracle: make / query-everything / destroy under ASan+UBSan+LSan with a watchdog, n_slots <= 64*n_chars, over shipped fonts x texts x '
+         'iteration count must respect the bound; the real sparse class against the extracted model on random pair lists and keys.  Oracle: make / query-everything / destroy under ASan+UBSan+LSan with a watchdog, n_slots <= 64*n_chars, over shipped fonts x texts x '
          'encodings x dir 0..7 x features x ppm, byte-mutated fonts accepted by the real loader, and adversarial rule bytecode accepted by the real loader.',
     note='partial: memory safety / UB / leaks are decided by sanitizers on explored inputs, not proved; the loop theorem abstracts rule effects to the monitored measure instead of deriving '
          'it from the opcode semantics; FSM, class lookup, sparse lookup and collision code are covered by the oracle only.',
